@@ -22,20 +22,25 @@ CT = "pandapipes.component_models.component_toolbox"
 IT = "pandapipes.pf.internals_toolbox"
 
 EXPLANATION = (
-    "calculate_derivatives_thermal is summarised end to end by forward substitution (numpy arm, transient=False): "
-    "(R10.1) the columns LOAD_VEC_BRANCHES_T, JAC_DERIV_DT, JAC_DERIV_DTOUT, LOAD_VEC_NODES_TO_T, JAC_DERIV_DT_NODE, "
-    "JAC_DERIV_DTOUT_NODE, LOAD_T, JAC_DERIV_DT_N and INFEED equal the transcribed law: exponential approach of the "
-    "outlet temperature to the ambient temperature with alpha*pi*d_o*l/(cp*|m|), temperature lift, lumped heat "
-    "extraction q/(cp |m|); node rows weight every entering stream by |m| times the MEAN of the heat capacities at "
-    "stream and node temperature (the same mean form the branch terms use); rows of nodes/branches without flow are "
-    "pinned to the ambient temperature; the Jacobian slots are the symbolic derivatives of these residuals; infeed "
-    "nodes are the nodes with leaving but without entering flow. (R10.2) every argument passed to "
-    "get_heat_capacity/get_density/get_viscosity/get_compressibility in the derivative calculation has the quantity "
-    "kind its signature documents (temperature / pressure), inferred from pit columns. (R10.4) temperature-fixing "
-    "ext grids go through set_fixed_node_entries(mode 't') whose running mean, counter and node type are checked; "
-    "circulation pumps of type t/pt write TOUTINIT = t_flow_k and pin their thermal branch row. (R10.5) the "
-    "direction switch is MDOTINIT < -eps and get_from/to_nodes_corrected constant-fold to (FROM,TO)/(TO,FROM); all "
-    "thermal consumers use them. (R10.6, shared with C07 R7.1) the numba twin of the thermal kernel computes the same residuals as the numpy kernel the law is compared with. Numba twin tied by C07. Not decided: temperature bounds of a solution, convergence.")
+    'calculate_derivatives_thermal is summarised end to end by forward substitution (numpy arm, transient=False): (R10.1)'
+    ' the columns LOAD_VEC_BRANCHES_T, JAC_DERIV_DT, JAC_DERIV_DTOUT, LOAD_VEC_NODES_TO_T, JAC_DERIV_DT_NODE, '
+    'JAC_DERIV_DTOUT_NODE, LOAD_T, JAC_DERIV_DT_N and INFEED equal the transcribed law: exponential approach of the '
+    'outlet temperature to the ambient temperature with alpha*pi*d_o*l/(cp*|m|), temperature lift, lumped heat extraction'
+    ' q/(cp |m|); node rows weight every entering stream by |m| times the MEAN of the heat capacities at stream and node '
+    'temperature (the same mean form the branch terms use); rows of nodes/branches without flow are pinned to the ambient'
+    ' temperature; the Jacobian slots are the symbolic derivatives of these residuals; infeed nodes are the nodes with '
+    'leaving but without entering flow. (R10.2) every argument passed to '
+    'get_heat_capacity/get_density/get_viscosity/get_compressibility in the derivative calculation has the quantity kind '
+    'its signature documents (temperature / pressure), inferred from pit columns. (R10.4) temperature-fixing ext grids go'
+    " through set_fixed_node_entries(mode 't') whose running mean, counter and node type are checked; circulation pumps "
+    'of type t/pt write TOUTINIT = t_flow_k and pin their thermal branch row. (R10.5) the direction switch is MDOTINIT < '
+    '-eps and get_from/to_nodes_corrected constant-fold to (FROM,TO)/(TO,FROM); all thermal consumers use them. (R10.6, '
+    'shared with C07 R7.1) the numba twin of the thermal kernel computes the same residuals as the numpy kernel the law '
+    'is compared with. Numba twin tied by C07. (R10.8) the per-row pit values of the thermal law (TEXT, ALPHA, TOUTINIT, '
+    "LENGTH, D ...) written by the create_pit_branch_entries hooks are element-wise functions of the row's own table "
+    'entry: the hook summary of every concrete branch class must not contain a whole-array flag (a store or a skipped '
+    "store decided by np.any / np.all over the column), which would let one pipe's entry decide the value of all others. "
+    'Not decided: temperature bounds of a solution, convergence.')
 ASSUMPTIONS = [phys.POSITIVITY_TEXT, "transient=False", "the law is the transcription in ppsa/spec/laws.py "
                "(pipe_component.rst, junction_component.rst, Baehr 2010)"]
 TECHNIQUE = "whole-function value numbering of the thermal derivative calculation vs transcribed law; quantity-kind inference on normal forms; symbolic differentiation; constant folding"
